@@ -65,7 +65,7 @@ def _field(case):
 
 def gen_cases(rng, tier):
     cases = []
-    nrep = 25 if tier == "quick" else 90
+    nrep = 25 if tier == "quick" else 60
     for i in range(nrep):
         for npol in (1, 2):
             # odd lengths too: the FFT-ordered frequency grid has no Nyquist bin there (fftshift/ifftshift differ)
